@@ -58,7 +58,22 @@ fn value_to_json(v: &Value, ex: Option<&Executor<NoEffect>>, consts: &[Constant]
                     Some(Constant::Binary(bs)) => Some(bs.clone()),
                     _ => None,
                 },
-                Binary::Heap(i) => ex.and_then(|e| e.get_heap_binary(*i)).map(|d| d.to_vec()),
+                // read through len()/byte_at() rather than to_vec(): a rope whose length arithmetic
+                // wrapped must not make the helper loop or allocate without bound
+                Binary::Heap(i) => ex.and_then(|e| e.get_heap_binary(*i)).and_then(|d| {
+                    let n = d.len();
+                    if n > 64 * 1024 * 1024 {
+                        None
+                    } else if let quiver_core::BinaryData::Owned(rc) = d {
+                        Some((**rc).clone())
+                    } else {
+                        let mut out = Vec::with_capacity(n);
+                        for k in 0..n {
+                            out.push(d.byte_at(k).unwrap_or(0));
+                        }
+                        Some(out)
+                    }
+                }),
             };
             match bytes {
                 Some(bs) => json!({"t":"bin","v": bs}),
